@@ -266,3 +266,125 @@ def run(ctx):
     ctx.guard("C01.R2", "placements", lambda: r2b_placements(ctx))
     ctx.guard("C01.R3", "state-map ownership", lambda: r3_ownership(ctx))
     ctx.guard("C01.R4", "scope push/pop", lambda: r4_push_pop(ctx))
+    ctx.guard("C01.R5", "entry API", lambda: r5_entry_api(ctx))
+
+
+def r5_entry_api(ctx):
+    """K6: the registry's entry API is the HashMap entry API re-typed: every method of Entry / OccupiedEntry / VacantEntry,
+    evaluated on an occupied and on a vacant base entry (the std entry an opaque symbol whose primitives are recorded),
+    applies exactly the std primitive its name says, with the caller's value, and runs the caller's closure exactly when
+    the entry is occupied (and_modify*) resp. vacant (or_insert_with)."""
+    from absint import Interp, Sym, Agg, Ref, TOP, some, NONE, ok, err, std_oracle, chain
+    from collmodel import coll_oracle, install as _inst
+    F = ctx.facts
+    E = "mahf::state::registry::entry::"
+    STD = "std::collections::hash::map::"
+    inl = lambda k: k.startswith(E) or k.startswith("<" + E)
+    base_idx = {a: F.field_index(E + a, "base") for a in ("OccupiedEntry", "VacantEntry")}
+
+    def wrap(kind):
+        adt = E + ("OccupiedEntry" if kind == "occupied" else "VacantEntry")
+        inner = Agg("adt", adt, None, [TOP, TOP])
+        inner.fields[base_idx["OccupiedEntry" if kind == "occupied" else "VacantEntry"]] = Sym("std-" + kind)
+        return inner
+
+    def evaluate(fn, args):
+        log = []
+
+        def oracle(interp, env, f, args_, t, bb, path):
+            k = f.get("key", "")
+            nm = f.get("name")
+            from collmodel import load
+            a0 = load(interp, env, args_[0]) if args_ else TOP
+            if k.startswith(STD + "OccupiedEntry::") and isinstance(a0, Sym) and a0.tag == "std-occupied":
+                log.append(("occupied." + nm, load(interp, env, args_[1]) if len(args_) > 1 else None))
+                if nm in ("get", "get_mut", "into_mut"):
+                    return Sym("cell:existing")
+                if nm in ("insert", "remove"):
+                    return Sym("cell:existing")
+                return TOP
+            if k.startswith(STD + "VacantEntry::") and isinstance(a0, Sym) and a0.tag == "std-vacant":
+                log.append(("vacant." + nm, load(interp, env, args_[1]) if len(args_) > 1 else None))
+                if nm == "insert":
+                    return Sym("cell:inserted")
+                return TOP
+            if k in ("core::cell::RefCell::new",):
+                return Agg("adt", "cell", None, [a0])
+            if k in ("alloc::boxed::Box::new",):
+                return a0
+            if k in ("core::cell::RefCell::borrow_mut", "core::cell::RefCell::borrow") and isinstance(a0, Sym) and a0.tag.startswith("cell:"):
+                return Sym("guard:" + a0.tag)
+            if k in ("core::cell::RefMut::map", "core::cell::Ref::map") and isinstance(a0, Sym) and a0.tag.startswith("guard:"):
+                return Sym("value-of:" + a0.tag[6:])
+            if k == "core::cell::RefCell::into_inner" and isinstance(a0, Sym) and a0.tag.startswith("cell:"):
+                return Sym("box:" + a0.tag)
+            if k == "better_any::TidExt::downcast_box" and isinstance(a0, Sym):
+                return ok(Sym("T:" + a0.tag))
+            if k in ("core::ops::deref::DerefMut::deref_mut", "core::ops::deref::Deref::deref") and isinstance(a0, Sym) and a0.tag.startswith("value-of:"):
+                return Sym("target-of:" + a0.tag)
+            if f.get("kind") == "fnptr" and isinstance(f.get("fnptr_value"), Sym):
+                log.append(("closure:" + f["fnptr_value"].tag, load(interp, env, args_[0]) if args_ else None))
+                return Sym("closure-result") if f["fnptr_value"].tag == "make-default" else Agg("tuple", None, None, [])
+            if k == "core::default::Default::default" and not args_:
+                log.append(("T::default", None))
+                return Sym("closure-result")
+            return TOP
+        it = _inst(Interp(fn.body, chain(oracle, coll_oracle, std_oracle), args, facts=F, inline=inl, max_visits=6))
+        return it.run(), log
+
+    def tag(v):
+        if isinstance(v, Sym):
+            return v.tag
+        if isinstance(v, Agg) and v.name == E + "Entry":
+            inner = v.fields[0] if v.fields else None
+            b = None
+            if isinstance(inner, Agg):
+                b = inner.fields[base_idx[inner.name[len(E):]]] if inner.name[len(E):] in base_idx else None
+            return "Entry::%s(%s)" % (v.variant, b.tag if isinstance(b, Sym) else "?")
+        if isinstance(v, Agg) and v.name == "cell":
+            return "cell(%s)" % tag(v.fields[0])
+        return repr(v)
+
+    n = 0
+
+    def expect(fn, scenario, args, want_log, want_ret):
+        nonlocal n
+        paths, log = evaluate(fn, args)
+        n += 1
+        got_log = [(a, tag(b) if b is not None else None) for a, b in log]
+        good = len(paths) == 1 and paths[0].end == "return" and got_log == want_log and (want_ret is None or tag(paths[0].ret) == want_ret)
+        ctx.check(good, "C01.R5", fn.key, scenario,
+                  "on %s entry: applies %s and returns %s; the HashMap entry API applies %s and returns %s"
+                  % (scenario, got_log, [tag(p.ret) if p.end == "return" else p.end for p in paths], want_log, want_ret), loc=fn.loc())
+
+    def ent(kind):
+        return Agg("adt", E + "Entry", "Occupied" if kind == "occupied" else "Vacant", [wrap(kind)])
+
+    value = Sym("default-value")
+    for name, extra, occ_log, occ_ret, vac_log, vac_ret in (
+            ("or_insert", [value], [("occupied.into_mut", None)], "value-of:cell:existing", [("vacant.insert", "cell(default-value)")], "value-of:cell:inserted"),
+            ("or_insert_with", [Sym("make-default")], [("occupied.into_mut", None)], "value-of:cell:existing",
+             [("closure:make-default", None), ("vacant.insert", "cell(closure-result)")], "value-of:cell:inserted"),
+            ("or_default", [], [("occupied.into_mut", None)], "value-of:cell:existing", [("T::default", None), ("vacant.insert", "cell(closure-result)")], "value-of:cell:inserted"),
+            ("and_modify", [Sym("modify")], [("occupied.get_mut", None), ("closure:modify", "value-of:cell:existing")], "Entry::Occupied(std-occupied)", [], "Entry::Vacant(std-vacant)"),
+            ("and_modify_value", [Sym("modify")], [("occupied.get_mut", None), ("closure:modify", "target-of:value-of:cell:existing")], "Entry::Occupied(std-occupied)", [], "Entry::Vacant(std-vacant)")):
+        fn = F.fn(E + "Entry::" + name)
+        expect(fn, "occupied", [ent("occupied")] + extra, occ_log, occ_ret)
+        expect(fn, "vacant", [ent("vacant")] + extra, vac_log, vac_ret)
+    fn = F.fn(E + "Entry::new")
+    for kind in ("occupied", "vacant"):
+        std_entry = Agg("adt", STD + "Entry", "Occupied" if kind == "occupied" else "Vacant", [Sym("std-" + kind)])
+        expect(fn, kind, [std_entry], [], "Entry::%s(std-%s)" % ("Occupied" if kind == "occupied" else "Vacant", kind))
+    home = 10000
+    for name, by_ref, extra, want_log, want_ret in (
+            ("get", True, [], [("occupied.get", None)], "value-of:cell:existing"),
+            ("get_mut", True, [], [("occupied.get_mut", None)], "value-of:cell:existing"),
+            ("into_mut", False, [], [("occupied.into_mut", None)], "value-of:cell:existing"),
+            ("insert", True, [value], [("occupied.insert", "cell(default-value)")], "T:box:cell:existing"),
+            ("remove", False, [], [("occupied.remove", None)], "T:box:cell:existing")):
+        fn = F.fn(E + "OccupiedEntry::" + name)
+        expect(fn, "occupied", [wrap("occupied")] + extra, want_log, want_ret)
+    fn = F.fn(E + "VacantEntry::insert")
+    expect(fn, "vacant", [wrap("vacant"), value], [("vacant.insert", "cell(default-value)")], "value-of:cell:inserted")
+    ctx.count("entry_api_scenarios", n)
+    ctx.floor("C01.R5", "entry API scenarios", n, 12)
